@@ -8,27 +8,68 @@ R08.6 declared inputs are resolved namespace-exact after qualification with the 
 from __future__ import annotations
 
 import ast
+import os
 
 import networkx as nx
 
 from ..model import src
 from ..namekinds import NameKinds, mentions_separator, textual_tests
 from ..report import Report, key_of
+from ..terms import assume, dag_nodes, has_opaque, pretty
 from .c07 import graph_orientation
 from .common import TRUSTED_BASE, bound_args, cfg_nodes_for, expanded_facts, inl, loop_runs_to_end, loop_unconditional, subst_single_assign, where
+
+
+_CONTROL_SRC = '''
+
+
+def _tcverif_control_bad(tasks: Dict[str, Task], task: Task):
+    for full_name in tasks:
+        if full_name.endswith(task.slugname):
+            return full_name
+
+
+def _tcverif_control_good(tasks: Dict[str, Task], task: Task):
+    for full_name in tasks:
+        if full_name.endswith(f'::{task.slugname}'):
+            return full_name
+'''
+
+
+def name_test_control(A, R: Report, rid: str):
+    """Positive control of the name-kind lint (its expected number of reports on a correct tree is zero): two functions
+    appended to task.py in memory - the separator-less suffix test must be flagged, the separator-carrying one must not."""
+    from ..core import Analysis
+    rel = 'src/taskchain/task.py'
+    base = (A.prog.overlay or {}).get(rel)
+    if base is None:
+        with open(os.path.join(A.prog.root, rel), encoding='utf-8') as fh:
+            base = fh.read()
+    ov = dict(A.prog.overlay or {})
+    ov[rel] = base + _CONTROL_SRC
+    A2 = Analysis(root=A.prog.root, overlay=ov)
+    NK = NameKinds(A2)
+    got = {}
+    for name in ('_tcverif_control_bad', '_tcverif_control_good'):
+        f = A2.func(name)
+        got[name] = [(op, mentions_separator(Y, A2, f)) for node, op, X, Y, kx, ky in textual_tests(A2, NK, f)]
+    R.require(got['_tcverif_control_bad'] == [('endswith', False)] and got['_tcverif_control_good'] == [('endswith', True)],
+              f'positive control of the name-kind lint failed: {got} - the lint is blind')
+    R.ok(rid, 'positive control', 'a separator-less suffix test between a full name and a slug name is flagged, its separator-carrying twin is not', where='(in-memory control appended to src/taskchain/task.py)')
 
 
 def check_name_tests(A, R: Report, rid: str, funcs=None, only=None):
     """R08.4 family.  `only`: restrict to functions (short names); returns number of instances."""
     NK = NameKinds(A)
     n = 0
+    name_test_control(A, R, rid)
     for f in A.prog.functions.values():
         if only is not None and f.short not in only:
             continue
         for node, op, X, Y, kx, ky in textual_tests(A, NK, f):
             n += 1
             construct = f'{f.short}: `{src(node)[:70]}`'
-            if mentions_separator(Y):
+            if mentions_separator(Y, A, f):
                 R.ok(rid, construct, f'{op} test carries the separator', where=where(f, node))
                 continue
             # an adjacent conjunct / disjunct that pins the separator position or tests equality makes the pair exact
@@ -203,70 +244,124 @@ def run(A, R: Report, thorough: bool):
                 'a missing *required* input can be skipped silently: the chain is built with a dangling declaration', witness=cfg.describe_path(p) if p else None, where=where(fpd, h.ast))
 
     R.rule('R08.6', 'the name handed to the resolver is qualified with the declaring config\'s namespace whenever it has one, and resolution is namespace-exact', floor=1)
+    fres = A.func('_find_task_full_name')
+    stop_old = A.sym.stop_at
+    A.sym.stop_at = {fi.qualname for fi in A.prog.functions.values() if fi.name in ('slugname', 'get_config', '_expand_tasks')}
+    try:
+        at = A.sym.terms_at(fpd, None, [c.args[0] for c in resolver_calls if c.args])
+    finally:
+        A.sym.stop_at = stop_old
     for c in resolver_calls:
-        exact = any(kw.arg == 'determine_namespace' and isinstance(kw.value, ast.Constant) and kw.value.value is False for kw in c.keywords) or \
-            (len(c.args) >= 3 and isinstance(c.args[2], ast.Constant) and c.args[2].value is False)
-        name_arg = c.args[0] if c.args else None
-        qual = []
-        if isinstance(name_arg, ast.Name):
-            for n in cfg.nodes.values():
-                if n.kind == 'stmt' and isinstance(n.ast, ast.Assign) and any(src(t) == name_arg.id for t in n.ast.targets) and isinstance(n.ast.value, ast.JoinedStr) \
-                        and 'namespace' in src(n.ast.value) and '::' in src(n.ast.value):
-                    qual.append(n.id)
-        infeasible_or_ok = [n.id for n in cfg.nodes.values() if n.kind == 'edge' and (
-            (src(n.ast).endswith('.namespace') and n.label == 'F') or (src(n.ast).startswith('type(') and n.label == 'F')
-            or (isinstance(n.ast, ast.Call) and isinstance(n.ast.func, ast.Attribute) and n.ast.func.attr == 'startswith' and 'namespace' in src(n.ast) and '::' in src(n.ast) and n.label == 'T'))]
-        ok_path = True
-        wit = None
-        for cn in cfg_nodes_for(cfg, c):
-            # start from the loop body entry: the innermost `for` head that dominates the call
-            heads = [d for d in cfg.dominators_of(cn.id) if cfg.nodes[d].kind == 'for']
-            start = [heads[0]] if heads else [cfg.entry.id]
-            p = cfg.find_path(start, [cn.id], avoid=qual + infeasible_or_ok)
-            if p is not None:
-                ok_path, wit = False, cfg.describe_path(p)
-        R.check(exact and bool(qual) and ok_path, 'R08.6', 'Chain._process_dependencies: resolver call', key_of('ns-exact', exact, bool(qual), ok_path),
+        ba = bound_args(c, fres, skip_self=False) or {}
+        dn = ba.get('determine_namespace')
+        exact = isinstance(dn, ast.Constant) and dn.value is False
+        terms = at.get(id(c.args[0]), []) if c.args else []
+        if not terms:
+            R.undecided('R08.6', 'Chain._process_dependencies: resolver call', 'the name handed to the resolver could not be evaluated symbolically', where=where(fpd, c))
+            continue
+        verdicts = []
+        for t in terms:
+            nss = {x[1][0] for x in dag_nodes(t) if x[0] == 'cat' and len(x[1]) >= 2 and x[1][1] == ('lit', '::') and x[1][0][0] == 'attr' and x[1][0][2] == 'namespace'}
+            if len(nss) != 1:
+                verdicts.append((False, t))
+                continue
+            ns = next(iter(nss))
+
+            def decide(c_, ns=ns):
+                if c_ == ns:
+                    return True
+                if c_[0] == 'cmp' and c_[1] == 'Is' and c_[2][0] == 'call' and c_[2][1] == 'type' and c_[3] in (('global', 'str'), ('builtin', 'str')):
+                    return True
+                return None
+
+            def qualified(r, ns=ns):
+                # <ns>::<name>, or <name> itself where it already starts with <ns>::
+                if r[0] == 'cat' and len(r[1]) == 3 and r[1][0] == ns and r[1][1] == ('lit', '::'):
+                    return True
+                if r[0] == 'cond':
+                    test, neg = r[1], False
+                    if test[0] == 'not':
+                        test, neg = test[1], True
+                    if test[0] == 'method' and test[2] == 'startswith' and test[3] == (('cat', (ns, ('lit', '::'))),):
+                        yes, no = (r[3], r[2]) if neg else (r[2], r[3])
+                        return (yes == test[1] or qualified(yes)) and qualified(no)
+                    return qualified(r[2]) and qualified(r[3])
+                return False
+
+            verdicts.append((qualified(assume(t, decide)), t))
+        bad = [t for ok_, t in verdicts if not ok_]
+        if bad and any(has_opaque(t) for t in bad):
+            R.undecided('R08.6', 'Chain._process_dependencies: resolver call', 'the name handed to the resolver involves a construct the term engine does not interpret', where=where(fpd, c))
+            continue
+        R.check(exact and not bad, 'R08.6', 'Chain._process_dependencies: resolver call', key_of('ns-exact', exact, not bad),
                 'qualified with the own namespace, determine_namespace=False',
                 'a declared input can be resolved without the declaring config\'s namespace (or with namespace guessing): it may bind a same-named task of another namespace',
-                witness=wit, where=where(fpd, c))
+                witness=[pretty(bad[0])[:300]] if bad else [pretty(terms[0])[:200]], where=where(fpd, c))
 
     # ---- R08.3
     R.rule('R08.3', 'exclusions are collected before any registration; only abstract and excluded classes are skipped; single-~ patterns match the own namespace segment-wise with fullmatch', floor=3)
     fct = A.func('Chain._create_tasks')
+    scope = [fct] + list(fct.nested.values())
     order_lists = [n for n in A.typer.own_nodes(fct) if isinstance(n, ast.For) and isinstance(n.iter, (ast.List, ast.Tuple)) and n.iter.elts and all(isinstance(e, ast.Tuple) for e in n.iter.elts)]
-    if not order_lists:
-        R.undecided('R08.3', 'Chain._create_tasks: field order', 'exclusion/registration ordering idiom not recognised', where=where(fct))
-    else:
+    cfg_loops = [n for n in A.typer.own_nodes(fct) if isinstance(n, ast.For) and '_configs' in src(n.iter)]
+    # the exclusion set: a local bound to a set (empty and filled by .add, or built in one expression from the `excluded_tasks` field)
+    ex_sets = [n for n in A.typer.own_nodes(fct) if isinstance(n, ast.Assign) and len(n.targets) == 1 and isinstance(n.targets[0], ast.Name) and 'exclu' in n.targets[0].id
+               and ((isinstance(n.value, ast.Call) and src(n.value.func) in ('set', 'frozenset')) or isinstance(n.value, (ast.SetComp, ast.Set)))]
+    creates = [n for f_ in scope for n in A.typer.own_nodes(f_) if isinstance(n, ast.Call) and isinstance(n.func, ast.Attribute) and n.func.attr == '_create_task']
+    if order_lists:
         firsts = [src(e.elts[0]) for e in order_lists[0].iter.elts]
         R.check(firsts and 'excluded' in firsts[0] and all('excluded' not in x for x in firsts[1:]), 'R08.3', 'Chain._create_tasks: field order', key_of('order', firsts), f'fields processed in order {firsts}',
                 f'task fields are processed in order {firsts}: a task can be registered before its exclusion is known', where=where(fct, order_lists[0]))
+    elif ex_sets and creates and all(isinstance(n.value, (ast.SetComp, ast.Set)) or n.value.args for n in ex_sets):
+        # the whole exclusion set is computed by one expression: it must dominate every task creation
+        cfgc = A.cfg(fct)
+        exn = [cn.id for n in ex_sets for cn in cfg_nodes_for(cfgc, n)]
+        crn = [cn.id for n in creates for cn in cfg_nodes_for(cfgc, n)]
+        if not crn:
+            R.undecided('R08.3', 'Chain._create_tasks: field order', 'task creation happens in a nested function; ordering against the exclusion set not recognised', where=where(fct))
+        else:
+            dom = all(any(cfgc.dominates(e, c) for e in exn) for c in crn)
+            mention = all("'excluded_tasks'" in src(n.value) for n in ex_sets)
+            R.check(dom and mention, 'R08.3', 'Chain._create_tasks: field order', key_of('order-dom', dom, mention), 'the exclusion set is complete before the first task is created',
+                    'a task can be registered before its exclusion is known', where=where(fct, ex_sets[0]))
+    else:
+        R.undecided('R08.3', 'Chain._create_tasks: field order', 'exclusion/registration ordering idiom not recognised', where=where(fct))
     # the exclusion set is per config: it must be created inside the loop over the configs
-    cfg_loops = [n for n in A.typer.own_nodes(fct) if isinstance(n, ast.For) and '_configs' in src(n.iter)]
-    ex_sets = [n for n in A.typer.own_nodes(fct) if isinstance(n, ast.Assign) and isinstance(n.value, ast.Call) and src(n.value.func) == 'set' and not n.value.args and 'exclu' in src(n.targets[0])]
     if not cfg_loops or not ex_sets:
         R.undecided('R08.3', 'Chain._create_tasks: exclusion scope', 'per-config exclusion set not recognised', where=where(fct))
     else:
         inside = all(any(p is lp for lp in cfg_loops for p in _parents(n)) for n in ex_sets)
         R.check(inside, 'R08.3', 'Chain._create_tasks: exclusion scope', key_of('exclusion-scope', inside), 'exclusions are collected per config',
                 'the exclusion set outlives one config: a class excluded by one config is also dropped from every config processed after it', where=where(fct, ex_sets[0]))
+    # filters: the abstract test and the exclusion membership test exist; no other condition drops a declared class
+    exnames = {n.targets[0].id for n in ex_sets}
+    tests = []  # (function, test expr, node)
+    for f_ in scope:
+        for n in A.typer.own_nodes(f_):
+            if isinstance(n, (ast.If, ast.IfExp, ast.While)):
+                tests.append((f_, n.test, n))
+            elif isinstance(n, ast.comprehension):
+                tests += [(f_, i, n) for i in n.ifs]
+    has_abstract = any(any(isinstance(x, ast.Constant) and x.value == 'abstract' for x in ast.walk(t)) for _, t, _ in tests)
+    has_excl = any(any(isinstance(x, ast.Compare) and len(x.ops) == 1 and isinstance(x.ops[0], (ast.In, ast.NotIn)) and isinstance(x.comparators[0], ast.Name) and x.comparators[0].id in exnames
+                       for x in ast.walk(t)) for _, t, _ in tests)
+    R.check(has_abstract and has_excl, 'R08.3', 'Chain._create_tasks: filters', key_of('filters', has_abstract, has_excl), 'abstract classes and excluded classes are filtered',
+            'the abstract or exclusion filter is missing', where=where(fct))
     skips = []
-    for f in [fct] + list(fct.nested.values()):
-        for n in A.typer.own_nodes(f):
+    for f_ in scope:
+        for n in A.typer.own_nodes(f_):
             if isinstance(n, ast.If) and n.body and isinstance(n.body[-1], (ast.Continue, ast.Return)) and not n.orelse:
-                skips.append((f, n))
-    allowed = 0
-    for f, n in skips:
+                skips.append((f_, n))
+    for f_, n in skips:
         t = src(n.test)
-        ok = t == 'exclude' or ('excluded_tasks' in t and ' in ' in t) or ("'abstract'" in t) or t.endswith('is None')
-        if ok:
-            allowed += 1
-        else:
-            R.violation('R08.3', f'{f.short}: skip `{t[:60]}`', key_of('skip', t), f'a declared task class is skipped under `{t}`: the chain no longer contains exactly the declared, non-abstract, non-excluded tasks', where=where(f, n))
-    R.check(allowed >= 3, 'R08.3', 'Chain._create_tasks: skip conditions', key_of('skips', allowed), 'abstract / excluded / exclusion-pass are the only skips', 'the abstract or exclusion filter is missing', where=where(fct))
+        ok = t == 'exclude' or any(isinstance(x, ast.Compare) and isinstance(x.ops[0], (ast.In, ast.NotIn)) and isinstance(x.comparators[0], ast.Name) and x.comparators[0].id in exnames for x in ast.walk(n.test)) \
+            or ("'abstract'" in t) or t.endswith('is None')
+        R.check(ok, 'R08.3', f'{f_.short}: skip `{t[:60]}`', key_of('skip', t), 'abstract / excluded / exclusion-pass skip',
+                f'a declared task class is skipped under `{t}`: the chain no longer contains exactly the declared, non-abstract, non-excluded tasks', where=where(f_, n))
     check_expand_tasks(A, R, 'R08.3')
 
     # ---- R08.4
-    R.rule('R08.4', 'no textual prefix / suffix / substring test between structured names (namespace, full name, slug) without the separator', floor=2)
+    R.rule('R08.4', 'no textual prefix / suffix / substring test between structured names (namespace, full name, slug) without the separator', floor=1)
     check_name_tests(A, R, 'R08.4')
 
     # ---- R08.5
